@@ -103,6 +103,29 @@ def programs(ctx):
     ]
     for i, c in enumerate(core0):
         progs.append({"id": "core0-%d" % i, "threads": c, "extra": "c0", "budget": cb})
+    # a weak reference to k1 exists from the start: upgrades racing the last Release while a call is still inside the hook
+    WA = lambda new: dict(op="WeakAddRef", h="", new=new, w="w1")
+    corew = [
+        [[C("c1")], [R("c9"), R("c1")], [WA("c3"), C("c3"), R("c3")]],
+        [[C("c9"), R("c9")], [R("c1")], [WA("c3"), R("c3")]],
+        [[C("c1"), R("c1")], [R("c9"), WA("c3")], [WA("c5"), C("c5")]],
+    ]
+    for i, c in enumerate(corew):
+        progs.append({"id": "corew-%d" % i, "threads": c, "weak": "w1", "budget": cb})
+        progs.append({"id": "corew-%d-rnd" % i, "threads": c, "weak": "w1", "budget": cb // 3, "mode": "rnd"})
+    # chains of promises: p1 is fulfilled with a client of promise p2 (before / after / while p2 is resolved)
+    F2 = lambda h: dict(op="Fulfill", h=h, new="", w="p2")
+    core2 = [
+        [[F2("c1"), F("c7"), R("c1"), R("c9"), R("c7"), C("c2"), R("c2")]],
+        [[F("c7"), F2("c1"), R("c1"), R("c9"), R("c7"), C("c2"), R("c2")]],
+        [[F2("c1"), R("c1")], [F("c7"), R("c7"), R("c9")], [C("c2"), R("c2")]],
+        [[F("c7"), R("c7"), C("c2")], [F2("nil")], [R("c2")]],
+        [[F2("c1")], [F("c7")], [dict(op="AddRef", h="c2", new="c4", w=""), R("c2"), C("c4"), R("c4")]],
+    ]
+    for i, c in enumerate(core2):
+        progs.append({"id": "core2-%d" % i, "threads": c, "promise2": True, "budget": cb})
+        if len(c) > 1:
+            progs.append({"id": "core2-%d-rnd" % i, "threads": c, "promise2": True, "budget": cb // 3, "mode": "rnd"})
     t1 = thread_programs(1, 2 if ctx.quick else 3, True)
     t2 = thread_programs(2, 2 if ctx.quick else 3, False)
     t2f = thread_programs(2, 2, True)
